@@ -220,7 +220,8 @@ func (m *Muxer) WriteData(d *MuxerData) (int, error) {
 				if pkt.AdaptationField == nil {
 					pkt.AdaptationField = newStuffingAdaptationField(bytesAvailable)
 				} else {
-					pkt.AdaptationField.StuffingLength = bytesAvailable
+					// The stuffing bytes the caller asked for are already part of the packet length
+					pkt.AdaptationField.StuffingLength += bytesAvailable
 				}
 			} else {
 				pkt.Header.HasPayload = true
@@ -259,7 +260,8 @@ func (m *Muxer) WriteData(d *MuxerData) (int, error) {
 				if pkt.AdaptationField == nil {
 					pkt.AdaptationField = newStuffingAdaptationField(bytesAvailable)
 				} else {
-					pkt.AdaptationField.StuffingLength = bytesAvailable
+					// The stuffing bytes the caller asked for are already part of the packet length
+					pkt.AdaptationField.StuffingLength += bytesAvailable
 				}
 			}
 
